@@ -231,13 +231,13 @@ type FaultCfg struct {
 	// StaleResponse: before the real response a duplicate of the previous
 	// response of the same API on this connection is delivered (a replayed /
 	// left-over frame); a client must reject it by its correlation id
-	StaleResponse    int
+	StaleResponse int
 	// Split: the response is delivered in two parts, the second one
 	// SplitMin..SplitMax later (a network stall in the middle of a response)
 	Split              int
 	SplitMin, SplitMax time.Duration
 	SlowMin, SlowMax   time.Duration
-	StallReset       time.Duration // a stalled connection is reset by the broker after this long (default 8s)
+	StallReset         time.Duration // a stalled connection is reset by the broker after this long (default 8s)
 	// which api keys are eligible (nil = all except ApiVersions/SASL)
 	APIs map[int16]bool
 	// stop injecting after this simulated time (0 = never stop)
